@@ -90,9 +90,71 @@ def guard_match(Cleanup):
     return m if getattr(m, "__name__", "") == "match" else None
 
 
-def real_preprocess(Cleanup, s):
-    return Cleanup.suppress_sys_path_injection(
-        Cleanup.suppress_main_guard(Cleanup.suppress_first_comments(s))).replace("\t", "    ")
+class _Captured(Exception):
+    pass
+
+
+def fed_to_tokenizer(pp, src):
+    """The text `full_cleaning` REALLY hands to the tokenizer (steps 1-4, tab expansion included): the
+    module's `generate_tokens` is replaced by a recorder that drains `readline` and stops the function."""
+    box = {}
+
+    def recorder(readline):
+        parts = []
+        while True:
+            try:
+                parts.append(readline())
+            except StopIteration:
+                break
+        box["text"] = "".join(parts)
+        raise _Captured()
+
+    original = pp.generate_tokens
+    pp.generate_tokens = recorder
+    try:
+        pp.Cleanup.full_cleaning(src)
+    except _Captured:
+        pass
+    finally:
+        pp.generate_tokens = original
+    if "text" not in box:
+        raise core.MachineryError("full_cleaning did not call generate_tokens")
+    t = box["text"]
+    return t[:-1] if t.endswith("\n") else t
+
+
+def preprocess_stream(ctx, drv, pp):
+    """Steps 1-4 of full_cleaning as a whole — in particular `text.replace("\\t", "    ")`, which is not a
+    function of its own — on every sequence over a token alphabet with tabs in every position."""
+    quick = ctx.tier == "quick"
+    alphabet = ["\t", " ", "x", "\n", "#", "'", "  \t", "\t "]
+    maxlen = 5 if quick else 6
+    texts = list(seqs(alphabet, maxlen))
+    big = ["\t", " ", "x", "\n", "#", "# paroxython: a", "if __name__ == '__main__':", "    y\n", "pass",
+           '__import__("sys").path[0:0] = ', "'", '"""', "  \t", "\\\n"]
+    for _ in range(4000 if quick else 40000):
+        texts.append("".join(ctx.rng.choice(big) for _ in range(ctx.rng.randrange(0, 12))))
+    cases, res = guard_cases(drv, pp.Cleanup, texts)
+    changed = 0
+    for t, m in zip(texts, res):
+        impl = fed_to_tokenizer(pp, t)
+        nontrivial = "\t" in t
+        changed += nontrivial
+        ctx.count("preprocess:fed-to-tokenizer", t, nontrivial=nontrivial)
+        if impl != m["preprocess"]:
+            ctx.cov["disagreements_checked"] += 1
+            small = shrink_text(t, lambda x: fed_to_tokenizer(pp, x) != guard_cases(drv, pp.Cleanup, [x])[1][0]["preprocess"])
+            ctx.broken.append("corr:preprocess:fed-to-tokenizer")
+            ctx.notes.append("text fed to the tokenizer differs from the model's pre-processing: " + json.dumps(
+                {"text": small, "impl": fed_to_tokenizer(pp, small),
+                 "model": guard_cases(drv, pp.Cleanup, [small])[1][0]["preprocess"]}, ensure_ascii=False))
+            return
+    ctx.dist("preprocess:fed-to-tokenizer:with-tabs", changed)
+    ctx.cov.setdefault("exhaustive_streams", {})["preprocess:fed-to-tokenizer"] = {
+        "alphabet": alphabet, "all_sequences_up_to_length": maxlen}
+    ctx.sample({"stream": "preprocess:fed-to-tokenizer", "input": "if x:\n  \ty = 1\t# c",
+                "impl": fed_to_tokenizer(pp, "if x:\n  \ty = 1\t# c"),
+                "model": guard_cases(drv, pp.Cleanup, ["if x:\n  \ty = 1\t# c"])[1][0]["preprocess"]}, limit=16)
 
 
 def call(f, *a):
@@ -144,7 +206,6 @@ def regex_streams(ctx, drv, Cleanup):
         ("useless_pass", Cleanup.suppress_useless_pass_statements,
          [" ", "pass", "\n", "x", "  ", "\t", "#", "  # c\n"], 5 if quick else 6),
         ("strip", lambda s: s.strip(), [" ", "\n", "x", "\t", "\x0b"], 5 if quick else 7),
-        ("tabs", lambda s: s.replace("\t", "    "), ["\t", " ", "x", "\n"], 4 if quick else 6),
     ]
     for name, f, alphabet, maxlen in plans:
         if name == "guard_line" and guard_match(Cleanup) is None:
@@ -407,7 +468,9 @@ def loop_programs(ctx, drv, pp, programs):
     reqs, metas = [], []
     for (origin, src), mpre in zip(programs, pres):
         try:
-            ipre = real_preprocess(Cleanup, src)
+            ipre = fed_to_tokenizer(pp, src)
+        except core.MachineryError:
+            raise
         except Exception as exc:  # noqa
             ctx.broken.append("corr:loop:programs:preprocess-raises")
             ctx.notes.append(f"preprocess raises {type(exc).__name__} on {origin}: {src[:200]!r}")
@@ -463,7 +526,7 @@ class ProgGen:
 
     def string(self):
         r = self.r
-        return r.choice(['"s"', "'t'", '"# not a comment"', '"""u"""', "'pass'", 'r"\\d"', 'b"x"'])
+        return r.choice(['"s"', "'t'", '"# not a comment"', '"""u"""', "'pass'", 'r"\\d"', 'b"x"', '"a\tb"', "'\t'"])
 
     def fstring(self):
         r = self.r
@@ -542,6 +605,9 @@ class ProgGen:
             return [("code", ind, t, hint)]
         if x < 0.35:
             t = f"{self.name()} = {self.expr()}"
+            if r.random() < 0.15:
+                self.used.add("tab-between-tokens")
+                t = t.replace(" = ", r.choice(["\t=\t", "\t= ", " =\t"]), 1)
         elif x < 0.45:
             t = f"{self.name()} {r.choice(['+=', '-=', '*='])} {self.expr()}"
         elif x < 0.6:
@@ -622,6 +688,9 @@ class ProgGen:
     def program(self):
         r = self.r
         self.used = set()
+        self.style = r.choice(["spaces"] * 5 + ["tab", "space-tab", "tab-space", "mixed"])
+        if self.style != "spaces":
+            self.used.add(f"indentation:{self.style}")
         items = [("doc", 0)]
         if self.shapes and r.random() < 0.08:
             self.used.add("first-line-hint")
@@ -676,10 +745,28 @@ class ProgGen:
                 out.append(" " * i + c)
         return out
 
+    def indent_unit(self, width):
+        """One more level of indentation, in the style of the program (part of the CORE: both layouts share it)."""
+        style = getattr(self, "style", "spaces")
+        if style == "mixed":
+            style = self.style_rng.choice(["spaces", "tab", "space-tab", "tab-space"])
+        return {"spaces": " " * width, "tab": "\t", "space-tab": "  \t", "tab-space": "\t  "}[style]
+
     def render(self, items, level, variant=False, head=None):
         """level = probability of (another) noise line at each slot; 0 = bare layout."""
         r = self.r
         lines = []
+        import random as _random
+        self.style_rng = _random.Random(len(items))  # same units in the bare and the noisy layout
+        stack = [(0, "")]
+
+        def prefix(ind):
+            while stack[-1][0] > ind:
+                stack.pop()
+            if stack[-1][0] < ind:
+                stack.append((ind, stack[-1][1] + self.indent_unit(ind - stack[-1][0])))
+            return stack[-1][1]
+
         if head:
             lines += head
         for idx, it in enumerate(items):
@@ -687,12 +774,12 @@ class ProgGen:
                 if level > 0 and r.random() < 0.6:
                     lines += self.noise_lines(it[1], level * 0.5)
                     d = r.choice(['"""Doc."""', "'d'", '"""Lorem.\n\n    Ipsum.\n    """', 'r"""raw"""', '"a" "b"' if False else '"""x"""'])
-                    lines.append(" " * it[1] + d)
+                    lines.append(prefix(it[1]) + d)
                 continue
             lines += self.noise_lines(it[1], level)
             if it[0] == "hint":
                 marker = r.choice(["#paroxython:", "#  Paroxython  :  ", "# PAROXYTHON :", "#\tparoxython:\t"]) if variant and level > 0 else "# paroxython: "
-                lines.append(" " * it[1] + marker + it[2])
+                lines.append(prefix(it[1]) + marker + it[2])
                 continue
             _, ind, text, hint = it
             if level > 0:
@@ -700,7 +787,7 @@ class ProgGen:
                                for k, seg in enumerate(text.split("§")))
             else:
                 text = text.replace("§", "")
-            line = " " * ind + text
+            line = prefix(ind) + text
             if hint is not None:
                 marker = r.choice(["#paroxython:", "#  Paroxython :  ", "# paroxython:   "]) if variant and level > 0 else "# paroxython: "
                 line += " " + marker + hint
@@ -1199,6 +1286,9 @@ def property_stream(ctx, drv, stream, cases, seen_sigs):
 
 
 HAND_PICKED = [
+    'def countdown(n):\n  \twhile n:\n  \t  \tprint(n)\n  \t  \tn -= 1\n  \treturn n\ncountdown(3)\n',
+    'if x:\n\ty = 1\n\tz = 2\n', 'if x:\n\t y = 1\n\t z = 2\nw = 3\n', 'for i in a:\n \tif i:\n \t \tb = 1\n \t \tc = 2\n \td = 3\n',
+    's = "a\tb"\nt = 1\t+\t2\nu\t=\t[\n\t1,\t# c\n  \t2,\n]\n', 'class A:\n\tdef f(self):\n\t    """doc"""\n\t    return 1\n\tx = 2\n',
     'if __name__ == "__main__":\n    main()\nx = 2\n', 'x = 1\nif __name__ == "__main__":\n    a()\nelse:\n    b()\ny = 2\n',
     'def main():\n    pass\nif __name__ == "__main__": main()\nz = 3\n',
     'if __name__ == "__main__":\n    s = """a\nb at column 0\n"""\n    main()\n# paroxython: foo\nx = 1\n',
@@ -1251,6 +1341,7 @@ def run(ctx):
             ctx.notes.append(f"HINT_COMMENT is {pp.HINT_COMMENT!r}; the model assumes {HINT!r}")
         # ---- the tie
         regex_streams(ctx, drv, Cleanup)
+        preprocess_stream(ctx, drv, pp)
         loop_synthetic(ctx, drv, pp)
         gen = ProgGen(ctx.rng)
         corpus = sorted((core.REPO / "examples").glob("**/*.py"))
